@@ -42,7 +42,7 @@ def iso_case(rng, fam, g, doc, docs, pos, node):
         c = end
     tr = Transform(doc)
     op = rng.choice(["replace", "delete", "replace_range", "delete_range", "replace_with", "insert",
-                     "replace_range_with", "lift", "split"])
+                     "replace_range_with", "lift", "lift", "lift", "split"])
     sl = g.slice_from(rng.choice(docs))
     other = rng.choice(docs)
     pool = [n for _, n in S.all_positions_with_nodes(other) if not n.is_text] or [sc.nodes["paragraph"].create()]
@@ -63,7 +63,15 @@ def iso_case(rng, fam, g, doc, docs, pos, node):
         elif op == "replace_range_with":
             t.replace_range_with(a, c, rng.choice(pool))
         elif op == "lift":
-            rg = doc.resolve(a).block_range(doc.resolve(c))
+            ra = doc.resolve(a)
+            iso_depth = doc.resolve(start).depth
+            if rng.random() < 0.5 and ra.depth > iso_depth:
+                # a block range at a chosen ancestor level (list items of a list inside the isolating node,
+                # rows of a nested table ...), not only the innermost one around the textblocks
+                want = ra.node(rng.randint(iso_depth, ra.depth - 1))
+                rg = ra.block_range(doc.resolve(c), lambda n: n is want)
+            else:
+                rg = ra.block_range(doc.resolve(c))
             # the block range must lie inside the isolating node (a range that IS the node moves it as a whole,
             # which is not an edit inside it)
             if rg is None or rg.depth < doc.resolve(start).depth:
@@ -87,10 +95,35 @@ def iso_case(rng, fam, g, doc, docs, pos, node):
     return Case(coq=coq, desc=desc, schema=info.schema_term(), kind=f"{op}/{outcome}", nontrivial=len(tr.steps) > 0)
 
 
+def nested(fam, doc):
+    """The document's blocks put inside an isolating node that itself sits deep inside containers which could
+    hold what the isolating node cannot (list items, rows): list > item > box > blocks, table in a cell of a table."""
+    sc = gen.family(fam)
+    n = sc.nodes
+    try:
+        if fam == "iso":
+            inner = n["box"].create(None, doc.content)
+            d = n["doc"].create(doc.attrs, Fragment.from_(
+                n["bullet_list"].create(None, Fragment.from_(
+                    n["list_item"].create(None, Fragment.from_([n["paragraph"].create(), inner]))))))
+        else:
+            cell = n["cell"].create(None, doc.content)
+            tbl = n["table"].create(None, Fragment.from_(n["row"].create(None, Fragment.from_(cell))))
+            outer_cell = n["cell"].create(None, Fragment.from_([n["paragraph"].create(), tbl]))
+            outer_row = n["row"].create(None, Fragment.from_(outer_cell))
+            d = n["doc"].create(doc.attrs, Fragment.from_(n["table"].create(None, Fragment.from_(outer_row))))
+        d.check()
+        return d
+    except ValueError:
+        return None
+
+
 def generate(rng: random.Random, tier: str):
     quick = tier == "quick"
     for fam in FAMS:
         g, docs = S.family_docs(rng, fam, 40 if quick else 500)
+        deep = [nd for nd in (nested(fam, d) for d in docs[:15 if quick else 150] if d.content.size <= 40) if nd is not None]
+        docs = docs + deep
         with_iso = [(d, iso_nodes(d)) for d in docs]
         with_iso = [(d, l) for d, l in with_iso if l]
         for doc, l in with_iso:
